@@ -85,6 +85,7 @@ long cell_add(int i, long d); // returns new value
 long opt(const char* key, long dflt); // --opt key=value from the command line
 bool heap_reuse_mode();
 uint64_t steps(); // scheduler steps so far
+void progress();  // harness-side loops that only read: tells the spin detector that a new iteration has begun (see rt.cpp)
 void point();     // explicit scheduling point: the calling thread may be preempted here (models "some time later")
 
 // heap census: number / bytes of live arena allocations, optionally only those made while `tag` was set
